@@ -60,6 +60,7 @@ LibSigs ==
   \* type IR1 = {A: int; B: string}   type IR2 = {Name: string; Vals: []int}   type IBox<T> = {Val: T; Tag: string}
   @@ ("{IR1}" :> Sig(0, <<TInt, TStr>>, Nm("IR1", <<>>)))
   @@ ("{IR2}" :> Sig(0, <<TStr, Sl(TInt)>>, Nm("IR2", <<>>)))
+  @@ ("{IR3}" :> Sig(0, <<TInt, TStr>>, Nm("IR3", <<>>)))                 \* type IR3 = {C: int; D: string}
   @@ ("{IBox}" :> Sig(1, <<SV(1), TStr>>, Nm("IBox", <<SV(1)>>)))
   \* type IU = IC1 of int | IC2 of int*string | IC3      type IOpt<T> = ISome of T | INone
   @@ ("IC1" :> Sig(0, <<TInt>>, Nm("IU", <<>>)))
